@@ -396,6 +396,11 @@ class Run:
                 if res.get("model_missing") and self.driver:
                     self.ties.append({"tie": "model", "what": "model driver unusable in %s: %s" % (h["name"], res["model_missing"])})
                 for f in res.get("failures") or []:
+                    kind = f.get("kind") or ""
+                    if h.get("only_kinds") and not any(kind.startswith(p) for p in h["only_kinds"]):
+                        continue
+                    if any(kind.startswith(p) for p in h.get("skip_kinds", [])):
+                        continue
                     f["_prop"] = self.prop
                     f["_harness"] = h["name"]
                     merged["failures"].append(f)
@@ -420,7 +425,9 @@ class Run:
         printed_known = set()
         os.makedirs(os.path.join(VERIF, "replays"), exist_ok=True)
         seen_v = set()
-        for f in monitor_fail:
+        for f in monitor_fail[:]:
+            if len(violations) >= 3:
+                break
             hit = next((e for e in known if self.matches(e, f)), None)
             if hit:
                 key = hit.get("kind") + json.dumps(hit.get("match") or {}, sort_keys=True)
